@@ -188,8 +188,8 @@ public:
   const char* Name() const override { return "osssim"; }
   std::vector<std::string> Properties() const override { return { "C19", "C12" }; }
   uint64_t DefaultRuns(const std::string&, bool thorough) const override { return thorough ? 120000 : 4000; }
-  Cfg GenCfg(Rng& r, const std::string&, bool) override {
-    Cfg c; c["steps"] = r.Range(10, 50); c["max_picts"] = r.Range(3, 9);
+  Cfg GenCfg(Rng& r, const std::string&, bool thorough) override {
+    Cfg c; c["steps"] = thorough ? r.Range(10, 90) : r.Range(10, 50); c["max_picts"] = thorough ? r.Range(3, 12) : r.Range(3, 9);
     c["uid_policy"] = r.Range(0, 4); c["uid_range"] = r.Range(8, 24);
     c["expr_depth"] = r.Range(1, 2); c["p_mutant"] = r.Pct(60) ? 0 : r.Range(3, 15);
     c["p_fault"] = r.Pct(35) ? 0 : r.Range(2, 15);
